@@ -18,7 +18,9 @@ class _:
     virtual = True
     trusted = True
     sorts = {"self": "ref:_PyStringTransformerMiddleware", "python_string": "str", "result": "tuple:str,str"}
-    ensures = {"pair-of-str": "True"}
+    # the result is a FUNCTION of the receiver and the argument: conv(s) = (conv_text(s), conv_err(s)).  This purity is
+    # part of the assumption (both shipped hooks call a converter that keeps no state between calls).
+    ensures = {"pure-pair-of-str": "result[0] == ufstr('conv_text', self, python_string) and result[1] == ufstr('conv_err', self, python_string)"}
     raises = {}
     modifies = []
 
@@ -34,12 +36,14 @@ class _:
         "result": "fresh(res) and len(res) == _i and not same(res, errors) and not same(res, list_of_strings)",
         "errors": "len(errors) == old(len(errors)) + _i and forall(t, 0 <= t < old(len(errors)), errors[t] == old(errors[t]))",
         "input": "forall(t, 0 <= t < len(list_of_strings), list_of_strings[t] == old(list_of_strings[t]))",
+        "elementwise": "forall(t, 0 <= t < _i, res[t] == ufstr('conv_text', self, list_of_strings[t]) and errors[old(len(errors)) + t] == ufstr('conv_err', self, list_of_strings[t]))",
     }, "props": ("C18",)}}
     locals = {"res": "list:str"}
     ensures = {
         "C18.same-length": "fresh(result) and len(result) == len(list_of_strings)",
         "C18.errors-appended": "len(errors) == old(len(errors)) + len(list_of_strings) and forall(t, 0 <= t < old(len(errors)), errors[t] == old(errors[t]))",
         "C18.input-untouched": "len(list_of_strings) == old(len(list_of_strings)) and forall(t, 0 <= t < len(list_of_strings), list_of_strings[t] == old(list_of_strings[t]))",
+        "C18.elementwise-in-order": "forall(t, 0 <= t < len(result), result[t] == ufstr('conv_text', self, list_of_strings[t]) and errors[old(len(errors)) + t] == ufstr('conv_err', self, list_of_strings[t]))",
     }
     raises = {}
     modifies = ["@content(errors)"]
@@ -55,6 +59,8 @@ class _:
         "C18.type-kept": "isstr(string._value) == old(isstr(string._value)) and implies(not old(isstr(string._value)), same(string._value, old(string._value)))",
         "C18.identity-untouched": "string._key == old(string._key) and same(string._raw, old(string._raw)) and same(string._start_line_in_file, old(string._start_line_in_file))",
         "C18.contained": "same(result, string) or (cls_is(result, 'MiddlewareErrorBlock') and fresh(result) and same(as_ref(result, 'ref:MiddlewareErrorBlock')._ignore_error_block, string))",
+        "C18.converted": "implies(old(isstr(string._value)), sval(string._value) == ufstr('conv_text', self, old(sval(string._value))))",
+        "C18.error-block-iff-failure": "implies(old(isstr(string._value)), same(result, string) == (ufstr('conv_err', self, old(sval(string._value))) == ''))",
     }
     raises = {}
     modifies = ["@string._value"]
@@ -80,8 +86,14 @@ class _:
     requires = {"distinct-fields": "forall((i, j), 0 <= i < j < len(entry._fields), not same(entry._fields[i], entry._fields[j]))",
                 "parts-allocated": "forall(i, 0 <= i < len(entry._fields), implies(is_np(entry._fields[i]._value), existed(np(entry._fields[i]._value).first) and existed(np(entry._fields[i]._value).von) and existed(np(entry._fields[i]._value).last) and existed(np(entry._fields[i]._value).jr)))"}
     locals = {"errors": "list:str"}
+    # ghost: fi = number of fields processed, epos[i] = position in `errors` of the message for str field i
+    ghost_code = [("errors = []", [("fi", None, "0")]),
+                  ("errors.append(e)", [("epos", "ghost('fi')", "len(errors) - 1"), ("fi", None, "ghost('fi') + 1")]),
+                  ("field.value.jr = ", [("fi", None, "ghost('fi') + 1")]),
+                  ("logger.info(", [("fi", None, "ghost('fi') + 1")])]
     loops = {1: {"cursor": "_i", "invariant": {
-        "range": "0 <= _i <= len(entry._fields) and len(entry._fields) == old(len(entry._fields)) and fresh(errors)",
+        "range": "0 <= _i <= len(entry._fields) and len(entry._fields) == old(len(entry._fields)) and fresh(errors) and ghost('fi') == _i and len(errors) >= 0",
+        "converted": "forall(i, 0 <= i < _i, implies(old(isstr(entry._fields[i]._value)), sval(entry._fields[i]._value) == ufstr('conv_text', self, old(sval(entry._fields[i]._value))) and 0 <= ghost('epos', i) < len(errors) and errors[ghost('epos', i)] == ufstr('conv_err', self, old(sval(entry._fields[i]._value)))))",
         "fields-same": "same(entry._fields, old(entry._fields)) and forall(i, 0 <= i < len(entry._fields), same(entry._fields[i], old(entry._fields[i])) and entry._fields[i]._key == old(entry._fields[i]._key))",
         "values": "forall(i, 0 <= i < len(entry._fields), isstr(entry._fields[i]._value) == old(isstr(entry._fields[i]._value)) and implies(not old(isstr(entry._fields[i]._value)), same(entry._fields[i]._value, old(entry._fields[i]._value))) and implies(i >= _i, same(entry._fields[i]._value, old(entry._fields[i]._value))))",
         "parts-first": "forall(i, 0 <= i < len(entry._fields), implies(is_np(entry._fields[i]._value), len(np(entry._fields[i]._value).first) == old(len(np(entry._fields[i]._value).first)) and allocated(np(entry._fields[i]._value).first) and not same(np(entry._fields[i]._value).first, errors)))",
@@ -95,9 +107,11 @@ class _:
         "C18.name-parts-shape": "forall(i, 0 <= i < len(entry._fields), implies(is_np(entry._fields[i]._value), len(np(entry._fields[i]._value).first) == old(len(np(entry._fields[i]._value).first)) and len(np(entry._fields[i]._value).last) == old(len(np(entry._fields[i]._value).last))))",
         "C18.identity-untouched": "entry._key == old(entry._key) and entry._entry_type == old(entry._entry_type) and same(entry._raw, old(entry._raw)) and same(entry._start_line_in_file, old(entry._start_line_in_file))",
         "C18.contained": "same(result, entry) or (cls_is(result, 'MiddlewareErrorBlock') and fresh(result) and same(as_ref(result, 'ref:MiddlewareErrorBlock')._ignore_error_block, entry))",
+        "C18.converted": "forall(i, 0 <= i < len(entry._fields), implies(old(isstr(entry._fields[i]._value)), sval(entry._fields[i]._value) == ufstr('conv_text', self, old(sval(entry._fields[i]._value)))))",
+        "C18.failure-never-ignored": "implies(same(result, entry), forall(i, 0 <= i < len(entry._fields), implies(old(isstr(entry._fields[i]._value)), ufstr('conv_err', self, old(sval(entry._fields[i]._value))) == '')))",
     }
     raises = {}
-    modifies = ["Field._value", "NameParts.first", "NameParts.von", "NameParts.last", "NameParts.jr"]
+    modifies = ["Field._value", "NameParts.first", "NameParts.von", "NameParts.last", "NameParts.jr", "ghost:fi:int", "ghost:epos:arr"]
 
 
 # ---- the two shipped conversion hooks ---------------------------------------------------------------------------------
